@@ -48,6 +48,11 @@ MISSED = {
     "C16-e": "a reply's question section was the asked question, a foreign one, an extra unasked one or a case-flipped one, never the asked question twice in two spellings: kind `ExactAndFlipped` (either order) joined the datagram alphabet",
     "C20-e": "no generated name came near the 255-octet limit: 1 name in 23 is now padded to exactly 255 (or 254, 252) octets below its origin, so that its relative spelling completes to the boundary",
     "C20-f": "$INCLUDE was only fed to the robustness sub-property: new sub-property `include_layout` moves runs of lines into included files (nested, with and without final newline, with $ORIGIN switches inside) and compares the loaded records; it had been written an hour before this seed arrived and had already exposed a genuine defect (origin leak, fixed in 659f378), but the committed check at the seed's arrival did not have it",
+    # round 4 (letters g, h)
+    "C05-h": "ANAME, the one other type hickory models whose embedded name stays unfolded, was not in the generator: ANAME RRsets (with injected case variants as distinct RRs) joined it",
+    "C09-h": "the end-to-end limits sub-property always passed both limits with soft <= hard: two more modes hand the builder only a hard limit (below the default soft limit) or a hard limit below the soft one",
+    "C13-h": "every generated request had all header flags clear, as hickory's update builders leave them: RD, CD and AD are now set on 2 requests in 5 before signing, so a reply header that is MACed differently from what is sent fails the completeness clause",
+    "C19-h": "injected out-of-bailiwick records were A, NS, CNAME and TXT only: an NSEC record at a victim name (a 'denial proof' of somebody else's zone) joined the injection kinds",
     "C19-e": "aliases came as chains and loops only: 1 simulated internet in 13 now has an alias tree (2-3 CNAME records per owner, 4-5 levels) and the number of its names looked up per client query is held against the recursor's cap of 64",
 }
 
